@@ -42,6 +42,7 @@ type runner struct {
 	r       *mon.Run
 	mu      sync.Mutex
 	maxConc int
+	maxLag  int
 }
 
 func rngFor(r *mon.Run, stream uint64) walletlab.RNGFor {
@@ -75,6 +76,18 @@ func configFor(r *mon.Run, kind string, stream uint64) walletlab.Config {
 		}
 	case walletlab.KindSequential:
 		cfg.Workers, cfg.Phases, cfg.OpsEach = 1, 4, 10
+	case walletlab.KindLagging:
+		// v2 and mix (where proofs matter) five times out of six
+		cfg.Workers, cfg.Phases, cfg.OpsEach = 1, 3, 10
+		cfg.Regime = regimes[stream%2]
+		if stream%6 == 5 {
+			cfg.Regime = walletlab.RegimeV1
+		}
+		cfg.UTXOs = []int{3, 8, 20, 45}[rng.IntN(4)]
+		if stream%2 == 0 {
+			// the package defaults (under which SplitUTXO admits n up to 30)
+			cfg.Opts.DefragThreshold, cfg.Opts.MaxInputsForDefrag, cfg.Opts.MaxDefragUTXOs = 30, 30, 10
+		}
 	case walletlab.KindRestartDefect:
 		cfg.Workers, cfg.Regime = 1, regimes[stream%2]                                             // v2 or mix: the pool must take v2 transactions
 		cfg.Opts = walletlab.Opts{DefragThreshold: 30, MaxInputsForDefrag: 30, MaxDefragUTXOs: 10} // the package defaults
@@ -169,6 +182,25 @@ func (rn *runner) count(cfg walletlab.Config, h *walletlab.History, st walletlab
 	r.Count("pool_submissions_accepted", st.Accepted)
 	r.Count("pool_submissions_undecided_block_overlap", st.Undecided)
 	r.Count("known_defect_barriers", st.KnownDefectHits)
+	r.Count("lag:deliveries_of_pending_blocks", st.Deliveries)
+	r.Count("lag:selecting_calls_while_blocks_pending", st.AcquiresLagging)
+	for k, v := range st.FundsByLag {
+		r.Count("lag:"+k, v)
+	}
+	r.Count("lag:input_proofs_verified_against_returned_basis", st.ProofsVerified)
+	r.Count("lag:calls_whose_proofs_are_stale_at_manager_tip", st.StaleAtTip)
+	r.Count("lag:submissions_of_txns_funded_while_lagging", st.SubmitsLagging)
+	r.Count("lag:submissions_of_txns_funded_while_lagging_accepted", st.AcceptedLagging)
+	r.Count("split_errors_after_picking_pooled_v1_output", st.SplitCrossVersion)
+	for k, v := range st.SplitExplained {
+		r.Count("lag:split_refusal_explained:"+k, v)
+	}
+	r.Count("lag:refusals_explained_by_input_spent_in_pending_block", st.RefusedPendingSpend)
+	rn.mu.Lock()
+	if st.MaxLag > rn.maxLag {
+		rn.maxLag = st.MaxLag
+	}
+	rn.mu.Unlock()
 	if cfg.Kind == walletlab.KindConcurrent {
 		sig, conc, overlaps := h.InterleavingSig()
 		r.SetAdd("interleaving_signatures", sig)
@@ -214,11 +246,17 @@ func runC07(r *mon.Run, replay string) {
 		"second funding rounds on the same transaction, Redistribute, SplitUTXO, ReleaseInputs, Sign*, pool submissions (AddPoolTransactions, AddV2PoolTransactions, BroadcastV2TransactionSet), Balance, SpendableOutputs, " +
 		"issued by 2..16 goroutines (own PRNG each) while another goroutine mines blocks (1/3 paying the wallet: immature outputs), with a barrier after each of 3 phases (agreement + probes), restarts and extra blocks in between; " +
 		"every 5th history is sequential with a barrier after every single operation. Regimes v1 / mix / v2 x 36 option settings (defrag threshold 0/1/3/30, max inputs for defrag 1/2/30, max defrag utxos 0/1/10). " +
+		"LAGGING WALLET: the harness decides when chain updates reach the wallet store. In concurrent histories 1/3 of the blocks stay pending (connected to the manager, not yet applied through UpdateChainState) and are delivered later by the miner goroutine; " +
+		"lagging-wallet histories (sequential) first pool wallet transactions (one with as many outputs as the accumulator has leaves, so that the confirming block doubles it and every older proof changes), connect 1..8 pending blocks, " +
+		"issue FundTransaction / FundV2Transaction / Redistribute / SplitUTXO + sign + submit with the RETURNED basis while they are pending, deliver PRNG-sized portions with more calls in between, and run the barrier oracles after catching up. " +
+		"For every successful v2 funding call each input's (leaf index, proof) is verified against the element accumulator of the returned basis; a refusal by the pool is only excused when a block pending at the time of the selecting call had spent an input. " +
 		"Dedicated sequential scenarios: broadcast+restart, reservation expiry 30 ms (with >= 1.2 s sleeps) and 3 h (no sleeps). " +
 		"A concurrent history is non-trivial when calls overlapped and more than one selection was made; distinct = distinct interleaving signature (hash of the order of call/return events).")
 	r.Assume("core (consensus, types) and chain.Manager's pool are the trusted base here (C05/C14 monitor the pool); the model of what is on chain comes from core's ApplyUpdate diffs, not from the wallet store")
 	r.Assume("no reorgs in this workload: a transaction that left the pool does not come back, except through the wallet's own re-adding of broadcast sets at start-up, which the restart event snapshots")
 	r.Assume("maturity uses the wallet's convention (tip height >= maturity height), which is one block more conservative than consensus")
+	r.Assume("eligibility (unspent, mature) is judged by what the wallet store has been told: a block counts from the event that delivered it to the store; the pool is judged by the manager's state")
+	r.Assume("a SplitUTXO call that returns an error is held against the wallet only when the chain manager refused its transaction and the model has no explanation (picked output spent by a pending block; unconfirmed output picked while lagging, which Manager.V2TransactionSet cannot rebase; pooled v1 parent)")
 	r.Assume("wall clock: reservation periods are 3 h (never expire during a run) or 30 ms with every later observation made after an explicit sleep of 1.2 s")
 
 	rn := &runner{r: r}
@@ -240,6 +278,9 @@ func runC07(r *mon.Run, replay string) {
 		}
 		jobs = append(jobs, job{kind, uint64(i)})
 	}
+	for i := 0; i < r.Pick(60, 1200); i++ {
+		jobs = append(jobs, job{walletlab.KindLagging, uint64(700000 + i)})
+	}
 	for i := 0; i < r.Pick(6, 24); i++ {
 		jobs = append(jobs, job{walletlab.KindRestartDefect, uint64(100000 + i)})
 	}
@@ -260,6 +301,7 @@ func runC07(r *mon.Run, replay string) {
 		rn.one(configFor(r, jobs[i].kind, jobs[i].stream))
 	})
 	r.Count("max_concurrent_calls", rn.maxConc)
+	r.Count("lag:max_pending_blocks_at_a_selecting_call", rn.maxLag)
 
 	// a run that observed too little must not pass
 	r.Floor("selections_checked", int64(r.Pick(2000, 40000)))
@@ -271,6 +313,18 @@ func runC07(r *mon.Run, replay string) {
 	r.Floor("pool_submissions_accepted", int64(r.Pick(300, 6000)))
 	r.Floor("failed_fund_calls", int64(r.Pick(200, 4000)))
 	r.Floor("selected_unconfirmed_inputs", 20)
+	// lagging-wallet dimension: every kind of funding call while blocks are
+	// pending, proofs that really differ between the two indices, submissions
+	r.Floor("lag:selecting_calls_while_blocks_pending", int64(r.Pick(300, 6000)))
+	r.Floor("lag:calls_whose_proofs_are_stale_at_manager_tip", int64(r.Pick(100, 2000)))
+	r.Floor("lag:submissions_of_txns_funded_while_lagging_accepted", int64(r.Pick(100, 2000)))
+	r.Floor("lag:max_pending_blocks_at_a_selecting_call", 6)
+	r.Floor("lag:deliveries_of_pending_blocks", int64(r.Pick(100, 2000)))
+	for _, op := range []string{walletlab.OpFund1, walletlab.OpFund2, walletlab.OpRedist} {
+		r.Floor("lag:"+op+":lag1", 5)
+		r.Floor("lag:"+op+":lag4", 2)
+	}
+	r.Floor("lag:"+walletlab.OpSplit+":lag1", 1)
 	r.Floor("selections_with_defrag_extra_inputs", 20)
 	r.Floor("op:"+walletlab.OpFund1+":ok", 100)
 	r.Floor("op:"+walletlab.OpFund2+":ok", 100)
